@@ -246,3 +246,27 @@ Definition watch_list (static : list server) (tags : list string) (reports : lis
 
 (** ** a retried request: every attempt is Load followed by Choose (doHandle) *)
 Definition attempt (g : nat) (d : Z) (k : string) : list cev := [CLoad g; CChoose g d k].
+
+(** ** one request passing through several balancers (mirror pool next to the main pool, several
+    Proxy filters of one pipeline).  A stage is (policy, hash header, list); the key a stage
+    extracts from the request is its client address (ipHash) or the value of ITS header
+    (headerHash).  A stage's choice is [choose] on its own key and list: nothing else carried by
+    the request (what earlier stages hashed, computed or chose) takes part. *)
+Record hreq := { q_ip : string; q_hdr : string -> string }.
+
+Definition stage_key (p : policy) (hkey : string) (r : hreq) : string :=
+  match p with
+  | IPHash => q_ip r
+  | HeaderHash => q_hdr r hkey
+  | _ => ""%string
+  end.
+
+Definition stage := (policy * string * list server)%type.
+
+(** [envs] = per stage the counter ticket and the random draw that stage consumes *)
+Fixpoint chain_run (q : quirks) (stages : list stage) (r : hreq) (envs : list (Z * Z)) : list outcome :=
+  match stages, envs with
+  | (p, hk, l) :: st', (t, d) :: en' =>
+      choose q p l {| tk := t; dr := d; ky := stage_key p hk r |} :: chain_run q st' r en'
+  | _, _ => []
+  end.
